@@ -147,7 +147,7 @@ def judge(i):
     for s in symops:
         R = tuple(int(round(x)) for x in np.asarray(s.rotation).ravel())
         t12 = np.asarray(s.translation) * 12
-        if not np.allclose(t12, np.round(t12), atol=1e-9):
+        if not np.allclose(t12, np.round(t12), rtol=0, atol=1e-9):
             return f"{tag}: translation {s.translation} is not on twelfths"
         ops.append((R, tuple(int(round(x)) % 12 for x in t12)))
     if any(o != dec(c) for o, c in zip(ops, codes)):
